@@ -43,7 +43,15 @@ def main():
     tier = args.tier if args.tier in ("quick", "thorough") else "quick"
 
     mod = importlib.import_module(prop.lower())
-    verdict = common.Verdict(prop, tier, seed, level=getattr(mod, "LEVEL", "proof"))
+    # the level written into the evidence is the one the manifest fragment claims for this property
+    level = getattr(mod, "LEVEL", "proof")
+    frag = os.path.join(common.VERIF, "manifest.d", f"{prop}.json")
+    if os.path.exists(frag):
+        try:
+            level = json.load(open(frag)).get("category", level)
+        except Exception:
+            pass
+    verdict = common.Verdict(prop, tier, seed, level=level)
     common.use_impl()
 
     if args.replay:
